@@ -6,32 +6,32 @@ import FuModel.Spec.RegexLang
 namespace FuModel.Drv.FindRegex
 open FuModel.Wire FuModel.Find.Regex
 
-def hex2 (a b : Char) : Option Char := do
-  let x ← hexVal a
-  let y ← hexVal b
-  pure (Char.ofNat (x * 16 + y))
+/-- a character code as six hex digits -/
+def hex6 (a b c d e f : Char) : Option Char := do
+  let v ← [a, b, c, d, e, f].foldlM (fun acc x => (hexVal x).map fun h => acc * 16 + h) 0
+  pure (Char.ofNat v)
 
 def parseMembers : Nat → List Char → Option (List SetMem × List Char)
   | 0, cs => some ([], cs)
-  | n + 1, 'm' :: a :: b :: rest => do
-    let c ← hex2 a b
+  | n + 1, 'm' :: a :: b :: c :: d :: e :: f :: rest => do
+    let ch ← hex6 a b c d e f
     let (ms, r) ← parseMembers n rest
-    pure (.ch c :: ms, r)
-  | n + 1, 'r' :: a :: b :: c :: d :: rest => do
-    let lo ← hex2 a b
-    let hi ← hex2 c d
+    pure (.ch ch :: ms, r)
+  | n + 1, 'r' :: a :: b :: c :: d :: e :: f :: a' :: b' :: c' :: d' :: e' :: f' :: rest => do
+    let lo ← hex6 a b c d e f
+    let hi ← hex6 a' b' c' d' e' f'
     let (ms, r) ← parseMembers n rest
     pure (.range lo hi :: ms, r)
   | _, _ => none
 
 def digit (c : Char) : Option Nat := if '0' ≤ c ∧ c ≤ '9' then some (c.toNat - 48) else none
 
-/-- prefix notation: cXX | d | k<neg><n>members | q a b | a a b | s a | p a | o a | i<lo><hi> a | g a -/
+/-- prefix notation: cXXXXXX | d | k<neg><n>members | q a b | a a b | s a | p a | o a | i<lo><hi> a | g a -/
 def parseRe : Nat → List Char → Option (Re × List Char)
   | 0, _ => none
   | fuel + 1, cs =>
     match cs with
-    | 'c' :: a :: b :: rest => (hex2 a b).map fun c => (.chr c, rest)
+    | 'c' :: a :: b :: c :: d :: e :: f :: rest => (hex6 a b c d e f).map fun ch => (.chr ch, rest)
     | 'd' :: rest => some (.any, rest)
     | 'k' :: ng :: n :: rest => do
       let n ← digit n
